@@ -3,6 +3,7 @@ package vg
 import (
 	"go/token"
 	"go/types"
+	"sort"
 	"strings"
 
 	"golang.org/x/tools/go/ssa"
@@ -135,8 +136,96 @@ func runC20FloatWidth(c *Ctx) {
 	}
 }
 
+// runC20FieldPathsOnInstantiatedType: C20.8 (defect D67).  A route's body selectors and path
+// variables are resolved to FieldDescriptors once, at registration, and used on request and
+// response messages at request time.  Those messages are instances of methodConfig.requestType /
+// responseType, which come from the service's type resolver - and a resolver may answer with a
+// type whose descriptor is another *instance* than methodDesc.Input()/Output() (the same schema
+// loaded twice).  protoreflect rejects a field descriptor of another instance with a panic
+// ("mismatching field" / "field descriptor does not belong to this message").  So the message
+// descriptor handed to the field-path resolver at registration is the Descriptor() of the
+// instantiated type; the method descriptor's Input()/Output() may serve only where the path
+// knows that type is not set.
+func runC20FieldPathsOnInstantiatedType(c *Ctx) {
+	p := c.P
+	c.Rule("C20.8", "route field paths are resolved against the descriptor of the message type that will be instantiated", 2)
+	res := p.MustFunc("resolvePathToFieldDescriptors")
+	mk := p.MustFunc("makeTarget")
+	reqTF := p.MustField("methodConfig", "requestType")
+	respTF := p.MustField("methodConfig", "responseType")
+	n := 0
+	for _, fn := range SortedFuncs(p.Reach(mk)) {
+		if !p.inScope(fn) {
+			continue
+		}
+		ord := 0
+		for _, call := range Calls(fn) {
+			if call.Common().StaticCallee() != res {
+				continue
+			}
+			n++
+			ord++
+			construct := "field-path-descriptor"
+			if ord > 1 {
+				construct += "|#" + itoa(ord)
+			}
+			// every origin of the descriptor argument: Descriptor() of the instantiated type, or
+			// Input()/Output() of the method descriptor on an edge that knows the type is nil
+			var bad []string
+			var walk func(v ssa.Value, facts []Fact, depth int)
+			walk = func(v ssa.Value, facts []Fact, depth int) {
+				if depth > 5 {
+					bad = append(bad, "unresolved")
+					return
+				}
+				if ph, ok := v.(*ssa.Phi); ok {
+					for i, e := range ph.Edges {
+						walk(e, FactsOnEdge(ph.Block().Preds[i], ph.Block()), depth+1)
+					}
+					return
+				}
+				cv, ok := v.(*ssa.Call)
+				if !ok || !cv.Call.IsInvoke() {
+					bad = append(bad, "not a descriptor accessor: "+v.String())
+					return
+				}
+				switch N(cv.Call.Method) {
+				case "Descriptor":
+					f := LoadedField(cv.Call.Value)
+					if f != reqTF && f != respTF {
+						bad = append(bad, "Descriptor() of something other than the instantiated request/response type")
+					}
+				case "Input", "Output":
+					knowsNil := false
+					for _, f := range facts {
+						if cmp, isCmp := f.AsCmp(); isCmp && cmp.Op == token.EQL && IsNilConst(cmp.Y) {
+							if lf := LoadedField(cmp.X); lf == reqTF || lf == respTF {
+								knowsNil = true
+							}
+						}
+					}
+					if !knowsNil {
+						bad = append(bad, "the method descriptor's "+N(cv.Call.Method)+"() is used although the instantiated type may be set")
+					}
+				default:
+					bad = append(bad, "unexpected accessor "+N(cv.Call.Method))
+				}
+			}
+			walk(call.Common().Args[0], FactsAt(call.Block()), 0)
+			sort.Strings(bad)
+			c.Check(len(bad) == 0, "C20.8", FuncName(fn), construct, call.Pos(),
+				"the field path is resolved against requestType/responseType.Descriptor() (the method descriptor only where that type is known to be unset)",
+				"a route's field path is resolved against a message descriptor that need not be the instance the request/response messages are made of ("+joinStr(bad)+"): with a resolver that supplies its own instance of the same schema, every REST call that binds a variable or body field panics in ServeHTTP ('mismatching field')")
+		}
+	}
+	if n < 2 {
+		c.Bad("C20.8", FuncName(mk), "field-path-descriptor", mk.Pos(), "fewer than two field-path resolutions under makeTarget ("+itoa(n)+"): shape changed")
+	}
+}
+
 func runC20(c *Ctx) {
 	defer runC20ComparableResolvers(c)
+	defer runC20FieldPathsOnInstantiatedType(c)
 	defer runC20FloatWidth(c)
 	p := c.P
 
